@@ -464,7 +464,7 @@ fn graph_strategy() -> impl Strategy<Value = GraphCase> {
 pub fn check(ctx: &Ctx) -> Vec<PartReport> {
     let known_cycle = ctx.known.is_known("C09", KF_CYCLE);
     let mut out = Vec::new();
-    let n = ctx.cases(5_000, 60_000);
+    let n = ctx.cases(15_000, 100_000);
     out.push(run_part(
         ctx,
         PartSpec {
@@ -500,7 +500,7 @@ pub fn check(ctx: &Ctx) -> Vec<PartReport> {
             require: vec![],
         },
     ));
-    let n3 = ctx.cases(1_500, 15_000);
+    let n3 = ctx.cases(4_500, 30_000);
     out.push(run_part(
         ctx,
         PartSpec {
